@@ -57,7 +57,23 @@ fn show_dd_t(t: (f64, f64)) -> String {
     show_dd([t.0, t.1])
 }
 
+pub fn hist_judge(c: &crate::hist::HCall, _l: Option<&mut crate::run::Local>) -> Verdict {
+    use crate::api::Op;
+    let k = match c.as_op() {
+        Some(Op::floor) => 0,
+        Some(Op::ceil) => 1,
+        Some(Op::trunc) => 2,
+        Some(Op::round) => 3,
+        Some(Op::fract) => 4,
+        _ => return Verdict::Skip,
+    };
+    judge(k, c.a)
+}
+
 pub fn replay(call: &str, _clause: &str, args: &[u64]) -> Verdict {
+    if call == "hist" {
+        return crate::hist::replay(args, &hist_judge);
+    }
     let ci = CALLS.iter().position(|c| *c == call).or_else(|| TRAIT_CALLS.iter().position(|c| *c == call)).expect("unknown call");
     judge(ci, [f64::from_bits(args[0]), f64::from_bits(args[1])])
 }
@@ -176,5 +192,11 @@ pub fn run(r: &mut Runner) {
                 }
             }
         });
+    }
+    {
+        use crate::api::Op;
+        let bases: Vec<[f64; 2]> = vec![[2.5, -1e-17], [-0.5, 1e-18], [2f64.powi(60), 0.5], [7.0, 1e-16], [0.49999999999999994, 1e-18]];
+        let groups = crate::hist::unary_groups(&[Op::floor, Op::round, Op::fract], &bases, [3.25, 0.0]);
+        crate::hist::explore(r, "histories: floor/ceil/trunc/round/fract", &groups, 3, &hist_judge, 14u64 << 55);
     }
 }
